@@ -23,6 +23,8 @@ Record ccase := {
   cc_qm : nat;                           (* measurement the query reads *)
   cc_born : list Z;                      (* per group: 2i = created by the routing of point i, -2 = pre-existing,
                                             2i-1 = created by Data.ReSharding before the batch starting at point i *)
+  cc_walive : list (list nat);           (* per group: the alive shard indexes while the rows were written (the groups carry the
+                                            list in force when the query runs) *)
   cc_reshard : option (Z * list str);    (* split time and split points of the Data.ReSharding of this case *)
   cc_cond : option expr;
   cc_points : list cpoint;
@@ -57,6 +59,9 @@ Open Scope Z_scope.
 
 Definition all_groups (c : ccase) : list group := c_groups (m_cfg (qmst c)).
 Definition with_born (c : ccase) : list (group * Z) := combine (all_groups c) (cc_born c).
+(* the groups as the write path saw them *)
+Definition wgroups_born (c : ccase) : list (group * Z) :=
+  combine (map (fun ga : group * list nat => set_alive (fst ga) (snd ga)) (combine (all_groups c) (cc_walive c))) (cc_born c).
 
 Definition with_groups (m : mcfg) (gs : list group) : mcfg :=
   {| m_cfg := {| c_mst := c_mst (m_cfg m); c_tagkeys := c_tagkeys (m_cfg m); c_sk := c_sk (m_cfg m); c_typ := c_typ (m_cfg m);
@@ -66,10 +71,10 @@ Definition with_groups (m : mcfg) (gs : list group) : mcfg :=
 (* catalogue seen by the routing of point i: the groups that existed before, plus - when none of them (nor the cached
    one) takes the timestamp - the group created for this point, whose span must be [trunc(t,d), +d) clipped *)
 Definition visible_groups (c : ccase) (cache : option group) (i : Z) (t : Z) : list group * bool :=
-  let before := map fst (filter (fun gb => snd gb <? 2 * i) (with_born c)) in
+  let before := map fst (filter (fun gb => snd gb <? 2 * i) (wgroups_born c)) in
   match pick_group cache before t with
   | Some _ => (before, true)
-  | None => match find (fun gb => snd gb =? 2 * i) (with_born c) with
+  | None => match find (fun gb => snd gb =? 2 * i) (wgroups_born c) with
             | Some (g, _) =>
                 let sp := span_of t (c_dur (m_cfg (qmst c))) in
                 (before ++ [g], (g_start g =? fst sp) && (g_end g =? snd sp) && negb (g_deleted g))
